@@ -34,9 +34,10 @@ ASSUMPTIONS = ["circuits, noise models and post-selection expressions are carrie
                "photon-count constraints are those the code checks: photons on the modes of interest + expected herald "
                "photons; when add_herald is called after with_input the stored input is older than the herald and its "
                "own photon count can differ (counted in the histogram, not judged)"]
-EXPLANATION = ("The faithful model refutes `conversion preserves the processor` for a local processor that has both "
-               "heralds and an input state (C16_from_local_preserves_refuted); the driver replays that witness on "
-               "the real code and reports it with its own signature.")
+EXPLANATION = ("`Conversion preserves the processor` is proved for the current code (C16_from_local_preserves). It was "
+               "refuted for the code before repo commit 55925315 (heralds + input -> AssertionError, kept as "
+               "C16_from_local_preserves_refuted_old_code); that witness and the witness of the simplifier defect "
+               "repaired in 4e70c855 stay in the corpus as regression guards.")
 
 METHODS = ["probs", "sample_count", "samples"]
 KW_NAMES = ["max_samples", "max_shots", "foo", "bar", "baz"]
@@ -506,7 +507,10 @@ def check_scenario(ctx, sc, mout, real):
         if kind == 1 and "is not a permutation" in msg:
             sig = "from-local-circuit-not-a-permutation"     # raised by rp.add(0, processor), before anything else
         elif kind == 1 and real["conv"][0] == 1 and m_conv == [0]:
-            sig = "from-local-raises"
+            loc = real.get("local", {})
+            sig = ("from-local-heralds-with-input-assertion"      # regression guard (repaired in 55925315)
+                   if real["conv"][2] == 1 and loc.get("heralds") and loc.get("input") is not None
+                   else "from-local-raises")
         errs.append((sig, "processor construction / conversion outcome differs from the model", m_conv, real["conv"]))
         return errs
     if kind == 1 and real["conv"][0] == 1:
